@@ -174,6 +174,7 @@ def run(res, facts, tier):
     from . import c01_scope
     c01_scope.run_rule(res, facts, tier)
     c01_scope.r6_params(res, facts)
+    c01_scope.r14_attribute_needs_element(res, facts)
 
 
 _run_c01_prev_avt = run
@@ -237,3 +238,5 @@ def run(res, facts, tier):
     _run_c01_prev_nomatch(res, facts, tier)
     from . import c10_builtin
     c10_builtin.run_c01_nomatch_rule(res, facts, tier)
+    from . import c10_attrorder
+    c10_attrorder.run_c01_rule(res, facts, tier)
